@@ -127,13 +127,16 @@ def main():
     pid = a[0].upper()
     also, ks, detect_only = [], [], False
     recheck = False
+    base_root, tag = "/tmp/seed", ""
     i = 1
     while i < len(a):
         if a[i] == "--also": also = a[i + 1].split(","); i += 2
+        elif a[i] == "--base": base_root = a[i + 1]; i += 2
+        elif a[i] == "--tag": tag = a[i + 1] + "-"; i += 2
         elif a[i] == "--detect-only": detect_only = True; i += 1
         elif a[i] == "--recheck": detect_only = True; recheck = True; i += 1
         else: ks.append(a[i]); i += 1
-    base = "/tmp/seed/%s/out" % pid
+    base = "%s/%s/out" % (base_root, pid)
     if not ks:
         ks = sorted(x for x in os.listdir(base) if os.path.exists(os.path.join(base, x, "patch.diff")))
     os.makedirs("/tmp/det", exist_ok=True)
@@ -144,7 +147,7 @@ def main():
         try: meta = json.load(open(os.path.join(d, "meta.json")))
         except Exception: pass
         if detect_only:
-            old = json.load(open("/verif/seeded/%s-%s/meta.json" % (pid, k)))
+            old = json.load(open("/verif/seeded/%s-%s%s/meta.json" % (pid, tag, k)))
             v = old.get("confirmed_by_orchestrator", {})
             if recheck:
                 det = old.get("detection", {})
@@ -156,7 +159,7 @@ def main():
         else:
             v = validate(pid, k, d, log)
             det = detect(pid, k, d, [pid] + also, log)
-        dst = "/verif/seeded/%s-%s" % (pid, k)
+        dst = "/verif/seeded/%s-%s%s" % (pid, tag, k)
         os.makedirs(dst, exist_ok=True)
         for f in ("patch.diff", "demo.rs", "demo.txt"):
             if os.path.exists(os.path.join(d, f)): shutil.copy(os.path.join(d, f), dst)
